@@ -569,9 +569,499 @@ def run_tree(case, ctx):
                             % (th2, i, err[i], lim[i]), particle=i, theta2=th2)
 
 
+# ---------------------------------------------------------------------------------------
+# MERCURIUS / TRACE: the two partial forces and their sum
+
+@st.composite
+def helio_config(draw, nmax=12):
+    N = draw(st.integers(2, nmax))
+    R = draw(st.sampled_from([1.0, 30.0, 1e-3]))
+    c = {"N": N, "box": None, "G": draw(st.sampled_from(G_VALUES)),
+         "soft": draw(st.sampled_from([0.0, 0.0, 1e-3, 0.05])) * R, "m0": draw(st.sampled_from([1.0, 0.5, 1.989e30]))}
+    c["pos"] = [[draw(S.floats(-0.999, 0.999)) * R for k in range(3)] for _ in range(N)]
+    c["m"] = [c["m0"]] + [c["m0"] * draw(mass_st()) for _ in range(N - 1)]
+    c["n_active"] = draw(st.one_of(st.just(-1), st.integers(1, N)))
+    c["tp_type"] = draw(st.sampled_from([0, 1]))
+    c["ignore"] = 0
+    c["R"] = R
+    return c
+
+
+merc_case = st.fixed_dictionaries({
+    "cfg": helio_config(),
+    "L": st.sampled_from(["mercury", "infinity", "C4", "C5", "python_smoothstep"]),
+    "dcrit": st.lists(st.one_of(st.just(0.0), S.floats(0.0, 3.0), S.logfloats(1e-3, 10.0)), min_size=12, max_size=12),
+    "members": st.lists(st.booleans(), min_size=12, max_size=12),
+})
+
+
+def star_term(pos, m0, G, soft):
+    import numpy as np
+    LD = np.longdouble
+    X = np.array(pos, dtype=LD)
+    r2 = np.sum(X * X, axis=1) + LD(soft) ** 2
+    r2[0] = 1
+    w = LD(G) * LD(m0) / (r2 * np.sqrt(r2))
+    w[0] = 0
+    a = -w[:, None] * X
+    cond = (w * np.sqrt(np.sum(X * X, axis=1))).astype(float)
+    return a, cond
+
+
+def heliocentric_mask(N, n_active, tp_type):
+    from ..oracles import c02_forces_ref as R
+    return R.acts_matrix(N, n_active, tp_type, 2)
+
+
+def run_mercurius(case, ctx):
+    import numpy as np
+    import warnings
+    from rebound import clibrebound as L
+    from ..oracles import c02_forces_ref as R
+    warnings.simplefilter("ignore")
+    LD = np.longdouble
+    c = case["cfg"]
+    N = c["N"]
+    pos, m = c["pos"], c["m"]
+    if not distinct_positions(pos) and c["soft"] == 0:
+        ctx.skip("coincident particles without softening")
+        return
+    sim = build_sim(c, "basic", pos, m)
+    sim.integrator = "mercurius"
+    sim.dt = 1e-3
+    keep = None
+    if case["L"] == "python_smoothstep":
+        def smooth(simp, d, dc):
+            if dc <= 0:
+                return 1.0
+            y = (d - 0.25 * dc) / (0.75 * dc)
+            return 0.0 if y <= 0 else (1.0 if y >= 1 else y * y * (3 - 2 * y))
+        sim.ri_mercurius.L = smooth
+        keep = smooth
+    else:
+        sim.ri_mercurius.L = case["L"]
+    L.reb_integrator_mercurius_part1.restype = None
+    L.reb_integrator_mercurius_part1(ctypes.byref(sim))       # allocates dcrit / encounter_map, moves to heliocentric coords
+    rim = sim.ri_mercurius
+    hp = [[sim.particles[i].x, sim.particles[i].y, sim.particles[i].z] for i in range(N)]
+    if hp[0] != [0.0, 0.0, 0.0]:
+        raise Violation("mercurius part1: central body not at the origin of the heliocentric frame: %r" % hp[0])
+    scale = c["R"]
+    dcrit = [case["dcrit"][i] * scale for i in range(N)]
+    for i in range(N):
+        rim._dcrit[i] = dcrit[i]
+
+    Lfn = sim.ri_mercurius._L
+    simref = ctypes.byref(sim)
+
+    def Lval(d, dc):
+        return float(Lfn(simref, ctypes.c_double(d), ctypes.c_double(dc)))
+
+    Xd = np.array(hp)
+    D = Xd[:, None, :] - Xd[None, :, :]
+    rr = np.sqrt(np.sum(D * D, axis=2) + c["soft"] ** 2)
+    Lmat = np.zeros((N, N))
+    for i in range(N):
+        for j in range(N):
+            if i != j and i and j:
+                Lmat[i, j] = Lval(float(rr[i, j]), max(dcrit[i], dcrit[j]))
+                if not (-L_SLACK <= Lmat[i, j] <= 1.0 + L_SLACK):
+                    raise Violation("switching function %s returned %r outside [0,1] for d=%r dcrit=%r"
+                                    % (case["L"], Lmat[i, j], float(rr[i, j]), max(dcrit[i], dcrit[j])))
+    mask = heliocentric_mask(N, c["n_active"], c["tp_type"])
+    n = N if c["n_active"] < 0 else c["n_active"]
+    # mode 0: L-weighted planet-planet part
+    rim.mode = 0
+    update_acc(sim)
+    a0 = read_acc(sim)
+    ref0, cond0, rmin2 = R.direct_ld(hp, m, c["G"], c["soft"], mask, weight=lambda r: Lmat.astype(LD))
+    if not (rmin2 > 0) and mask.any():
+        ctx.skip("coincident particles without softening")
+        return
+    star, cond_s = star_term(hp, m[0], c["G"], c["soft"])
+    if not np.all(np.isfinite(star.astype(float))):
+        ctx.skip("particle at the position of the central body without softening")
+        return
+    nterms = mask.sum(axis=1)
+    ctx.cls("L=" + case["L"])
+    frac = Lmat[(mask) & (Lmat > 0) & (Lmat < 1)]
+    mixed = bool(np.any(Lmat[mask] == 0) and np.any(Lmat[mask] > 0)) or len(frac) > 0
+    if len(frac):
+        ctx.cls("pairs_in_changeover")
+    classify(c, m, ctx, extra_nt=mixed)
+    compare(a0, ref0, cond0, nterms, 24, 2, "mercurius mode 0 (L-weighted part)", ctx, "merc_mode0_err/tol")
+    # mode 1, every particle in the encounter map: (1-L)-weighted part + star; the two parts add up to the full force
+    rim.mode = 1
+    rim._encounter_N = N
+    rim._encounter_N_active = n
+    for i in range(N):
+        rim._encounter_map[i] = i
+    update_acc(sim)
+    a1 = read_acc(sim)
+    full, condf, _ = R.direct_ld(hp, m, c["G"], c["soft"], mask)
+    full = full + star
+    condf = condf + cond_s
+    compare(a0 + a1, full, condf, 2 * nterms + 2, 48, 2, "mercurius mode 0 + mode 1 (all particles in encounter) vs full heliocentric force",
+            ctx, "merc_sum_err/tol")
+    ctx.cls("two_part_identity")
+    # mode 1 with a sub-set of particles in the encounter map: only members, only member sources
+    mem = [0] + [i for i in range(1, N) if case["members"][i]]
+    if 1 < len(mem) < N:
+        rim._encounter_N = len(mem)
+        rim._encounter_N_active = len([i for i in mem if i < n])
+        for k, i in enumerate(mem):
+            rim._encounter_map[k] = i
+        update_acc(sim)
+        a1s = read_acc(sim)
+        inmem = np.zeros(N, dtype=bool)
+        inmem[mem] = True
+        msub = mask & inmem[:, None] & inmem[None, :]
+        ref1, cond1, _ = R.direct_ld(hp, m, c["G"], c["soft"], msub, weight=lambda r: (1 - Lmat).astype(LD))
+        ref1 = ref1 + star
+        cond1 = cond1 + cond_s
+        sel = np.array(mem)
+        compare(a1s[sel], ref1[sel], cond1[sel], msub.sum(axis=1)[sel] + 1, 24, 2,
+                "mercurius mode 1 restricted to encounter members %r" % mem, ctx, "merc_mode1_err/tol")
+        ctx.cls("partial_encounter_map")
+    del keep
+
+
+# the C4/C5 polynomials have alternating coefficients up to 3465 (sum of magnitudes ~1.1e4): evaluated in double
+# they may leave [0,1] or lose monotonicity by that many ulps near y=1
+L_SLACK = 64 * EPS * 1.1e4
+
+
+def run_switching(case, ctx):
+    """Built-in changeover functions: 0 <= L <= 1, non-decreasing in d, 0 below 0.1 dcrit, 1 above dcrit."""
+    from rebound import clibrebound as L
+    name, dc, ds = case["L"], case["dcrit"], sorted(case["d"])
+    f = getattr(L, "reb_integrator_mercurius_L_" + name)
+    f.restype = ctypes.c_double
+    f.argtypes = [ctypes.c_void_p, ctypes.c_double, ctypes.c_double]
+    prev = None
+    for d in ds + [0.1 * dc, dc, 0.0999 * dc, 1.0001 * dc]:
+        v = f(None, d * 1.0, dc)
+        if not (-L_SLACK <= v <= 1.0 + L_SLACK):
+            raise Violation("L_%s(d=%r, dcrit=%r) = %r outside [0,1]" % (name, d, dc, v))
+        if d <= 0.0999 * dc and v != 0.0:
+            raise Violation("L_%s(d=%r, dcrit=%r) = %r, expected 0 below 0.1 dcrit" % (name, d, dc, v))
+        if d >= 1.0001 * dc and v != 1.0:
+            raise Violation("L_%s(d=%r, dcrit=%r) = %r, expected 1 above dcrit" % (name, d, dc, v))
+    vals = [f(None, d, dc) for d in ds]
+    for a, b, da, db in zip(vals, vals[1:], ds, ds[1:]):
+        if b < a - L_SLACK:
+            raise Violation("L_%s not monotone: L(%r)=%r > L(%r)=%r (dcrit %r)" % (name, da, a, db, b, dc))
+    ctx.cls(name)
+    if any(0 < v < 1 for v in vals):
+        ctx.nontrivial()
+
+
+switch_case = st.fixed_dictionaries({"L": st.sampled_from(["mercury", "infinity", "C4", "C5"]),
+                                     "dcrit": S.logfloats(1e-6, 1e6),
+                                     "d": st.lists(S.floats(0.0, 1.2), min_size=4, max_size=40)}).map(
+    lambda c: dict(c, d=[x * c["dcrit"] for x in c["d"]]))
+
+
+trace_case = st.fixed_dictionaries({
+    "cfg": helio_config(),
+    "K": st.lists(st.sampled_from([0, 0, 1]), min_size=78, max_size=78),
+    "extra_members": st.lists(st.sampled_from([False, False, True]), min_size=12, max_size=12),
+    "all_members": st.sampled_from([False, False, True]),
+})
+
+
+def run_trace(case, ctx):
+    import numpy as np
+    import warnings
+    from rebound import clibrebound as L
+    from ..oracles import c02_forces_ref as R
+    warnings.simplefilter("ignore")
+    c = dict(case["cfg"])
+    N = c["N"]
+    pos = [list(p) for p in c["pos"]]
+    pos[0] = [0.0, 0.0, 0.0]                      # heliocentric frame: the routine's precondition
+    m = c["m"]
+    if not distinct_positions(pos) and c["soft"] == 0:
+        ctx.skip("coincident particles without softening")
+        return
+    sim = build_sim(c, "basic", pos, m)
+    sim.integrator = "trace"
+    sim.dt = 1e-3
+    L.reb_integrator_trace_part1.restype = None
+    L.reb_integrator_trace_part1(ctypes.byref(sim))           # allocates current_Ks / encounter_map, selects gravity TRACE
+    rit = sim.ri_trace
+    n = N if c["n_active"] < 0 else c["n_active"]
+    K = np.zeros((N, N), dtype=int)
+    it = iter(case["K"])
+    for i in range(N):
+        for j in range(i + 1, N):
+            v = next(it)
+            if i < n:                      # a pair needs at least one active member to have a close encounter
+                K[i, j] = K[j, i] = v
+    member = np.zeros(N, dtype=bool)
+    member[0] = True
+    for i in range(N):
+        for j in range(i + 1, N):
+            if K[i, j]:
+                member[i] = member[j] = True
+    for i in range(1, N):
+        if case["extra_members"][i] or case["all_members"]:
+            member[i] = True
+    mem = [i for i in range(N) if member[i]]
+    for i in range(N):
+        for j in range(N):
+            rit._current_Ks[i * N + j] = int(K[i, j]) if i < j else 0
+    rit._encounter_N = len(mem)
+    rit._encounter_N_active = len([i for i in mem if i < n])
+    for k in range(N):
+        rit._encounter_map[k] = mem[k] if k < len(mem) else 0
+    mask = heliocentric_mask(N, c["n_active"], c["tp_type"])
+    full, condf, rmin2 = R.direct_ld(pos, m, c["G"], c["soft"], mask)
+    if not (rmin2 > 0) and mask.any():
+        ctx.skip("coincident particles without softening")
+        return
+    star, cond_s = star_term(pos, m[0], c["G"], c["soft"])
+    if not np.all(np.isfinite(star.astype(float))):
+        ctx.skip("particle at the position of the central body without softening")
+        return
+    Kb = K.astype(bool)
+    ref_int, cond_i, _ = R.direct_ld(pos, m, c["G"], c["soft"], mask & ~Kb)
+    ref_kep, cond_k, _ = R.direct_ld(pos, m, c["G"], c["soft"], mask & Kb)
+    # interaction part
+    rit._mode = 0
+    update_acc(sim)
+    ai = read_acc(sim)
+    nterms = mask.sum(axis=1)
+    mixed = bool(np.any(Kb[mask]) and np.any(~Kb[mask]))
+    ctx.cls("K_mixed" if mixed else ("K_all0" if not np.any(Kb[mask]) else "K_all1"))
+    classify(c, m, ctx, extra_nt=mixed)
+    compare(ai, ref_int, cond_i + 1e-300, (mask & ~Kb).sum(axis=1), 24, 1, "trace interaction part (pairs with K=0)", ctx,
+            "trace_int_err/tol")
+    # Kepler part: members only
+    if len(mem) > 1:
+        rit._mode = 1
+        update_acc(sim)
+        ak = read_acc(sim)
+        sel = np.array(mem)
+        compare(ak[sel], (ref_kep + star)[sel], (cond_k + cond_s)[sel], (mask & Kb).sum(axis=1)[sel] + 1, 24, 1,
+                "trace Kepler part (star + pairs with K=1) for encounter members %r" % mem, ctx, "trace_kep_err/tol")
+        tot = ai + ak
+        sel1 = np.array([i for i in mem if i > 0])
+        compare(tot[sel1], (full + star)[sel1], (condf + cond_s)[sel1], 2 * nterms[sel1] + 2, 48, 1,
+                "trace interaction + Kepler part vs full heliocentric force", ctx, "trace_sum_err/tol")
+        ctx.cls("two_part_identity")
+        if len(mem) < N:
+            ctx.cls("partial_encounter_map")
+
+
+# ---------------------------------------------------------------------------------------
+# JACOBI routine: direct terms without the (0,1) pair + Jacobi terms of the Wisdom-Holman interaction Hamiltonian
+
+@st.composite
+def jacobi_config(draw):
+    N = draw(st.integers(1, 12))
+    R = draw(st.sampled_from([1.0, 30.0, 1e-3]))
+    c = {"N": N, "box": None, "G": draw(st.sampled_from(G_VALUES)), "soft": 0.0,
+         "m0": draw(st.sampled_from([1.0, 0.5, 1.989e30]))}
+    c["pos"] = [[draw(S.floats(-0.999, 0.999)) * R for k in range(3)] for _ in range(N)]
+    c["m"] = [c["m0"]] + [c["m0"] * draw(mass_st()) for _ in range(N - 1)]
+    c["n_active"], c["tp_type"], c["ignore"] = -1, 0, draw(st.sampled_from([0, 1]))
+    return c
+
+
+def run_jacobi(case, ctx):
+    import numpy as np
+    import mpmath as mp
+    import warnings
+    from ..oracles import c02_forces_ref as R
+    warnings.simplefilter("ignore")
+    LD = np.longdouble
+    c = case["cfg"]
+    N = c["N"]
+    pos, m = c["pos"], c["m"]
+    if not distinct_positions(pos):
+        ctx.skip("coincident particles without softening")
+        return
+    sim = build_sim(c, "jacobi", pos, m)
+    sim.integrator = "whfast"
+    mask = R.acts_matrix(N, -1, 0, 1)                     # all pairs except {0,1}
+    accd, condd, rmin2 = R.direct_ld(pos, m, c["G"], 0.0, mask)
+    try:
+        accj, condj, acc1 = R.jacobi_terms_mp(pos, m, c["G"])
+    except ZeroDivisionError:
+        ctx.skip("a particle sits exactly on the centre of mass of the interior bodies")
+        return
+    ref = np.zeros((N, 3), dtype=LD)
+    for i in range(N):
+        for k in range(3):
+            v = mp.mpf(float(accd[i, k])) + mp.mpf(float(accd[i, k] - LD(float(accd[i, k])))) + accj[i][k]
+            hi = float(v)
+            ref[i, k] = LD(hi) + LD(float(v - mp.mpf(hi)))
+    cond = condd + np.array(condj)
+    if not np.all(np.isfinite(ref.astype(float))) or not np.all(np.isfinite(cond)):
+        ctx.skip("reference overflows")
+        return
+    # oracle self-check: the i=1 Jacobi term cancels the direct (0,1) pair (that is why both are omitted)
+    if N >= 2:
+        full01 = R.direct_mp(pos, m, c["G"], 0.0, (R.acts_matrix(N, -1, 0, 0) & ~mask).tolist())
+        for i in range(N):
+            for k in range(3):
+                if abs(full01[i][k] + acc1[i][k]) > mp.mpf(10) ** -30 * (abs(full01[i][k]) + 1):
+                    raise RuntimeError("oracle self-check: Jacobi term of body 1 does not cancel the (0,1) pair")
+    update_acc(sim)
+    got = read_acc(sim)
+    classify(c, m, ctx, extra_nt=N >= 3)
+    nterms = 3 * np.full(N, max(N - 1, 0))
+    compare(got, ref, cond, nterms, 32, 1, "gravity=jacobi", ctx, "jacobi_err/tol")
+
+
+jacobi_case = st.fixed_dictionaries({"cfg": jacobi_config()})
+
+# WHFast in Jacobi coordinates reaches the same Hamiltonian through two code paths: gravity=basic with
+# gravity_ignore_terms=1 plus the Jacobi term added in the interaction step, or gravity=jacobi.
+jstep_case = st.fixed_dictionaries({
+    "system": S.hierarchical_system(nmin=2, nmax=6, allow_massless=True),
+    "dt_frac": st.sampled_from([0.01, 0.03, 0.05]),
+    "n_test": st.integers(0, 2),
+    "corrector": st.sampled_from([0, 0, 3, 11]),
+})
+
+
+def run_jacobi_step(case, ctx):
+    import numpy as np
+    import warnings
+    from .. import rb
+    from ..oracles import c02_forces_ref as R
+    warnings.simplefilter("ignore")
+    sysd = case["system"]
+    parts = [dict(p) for p in sysd["particles"]]
+    N = len(parts)
+    q = min(case["n_test"], N - 2) if N > 2 else 0
+    for p in parts[N - q:] if q else []:
+        p["m"] = 0.0
+    sims = []
+    for grav in ("basic", "jacobi"):
+        sim = rb.new_sim({"G": sysd["G"], "particles": parts})
+        sim.integrator = "whfast"
+        sim.ri_whfast.coordinates = "jacobi"
+        sim.ri_whfast.corrector = case["corrector"]
+        sim.ri_whfast.safe_mode = 1
+        if q:
+            sim.N_active = N - q
+        sim.dt = case["dt_frac"] * sysd["P_min"]
+        sim.gravity = grav
+        sim.step()
+        if sim.gravity != grav:
+            raise Violation("whfast changed the selected gravity routine from %s to %s" % (grav, sim.gravity))
+        sims.append(sim)
+    a, b = (np.array(rb.pfloat(s))[:, :6] for s in sims)
+    pos = [[p["x"], p["y"], p["z"]] for p in parts]
+    m = [p["m"] for p in parts]
+    _, cond, _ = R.direct_ld(pos, m, sysd["G"], 0.0, R.acts_matrix(N, -1, 0, 0))
+    amax = float(np.max(cond)) if N else 0.0
+    dt = abs(sims[0].dt)
+    xmax = float(np.max(np.abs(a[:, :3])))
+    vmax = float(np.max(np.abs(a[:, 3:])))
+    K = 64.0 * (N + 8) * (1 + 2 * (case["corrector"] > 0) * case["corrector"])
+    tolx = K * EPS * (xmax + dt * vmax + dt * dt * amax)
+    tolv = K * EPS * (vmax + dt * amax)
+    ex = float(np.max(np.abs(a[:, :3] - b[:, :3])))
+    ev = float(np.max(np.abs(a[:, 3:] - b[:, 3:])))
+    ctx.stat_max("jstep_x/tol", ex / tolx)
+    ctx.stat_max("jstep_v/tol", ev / tolv)
+    ctx.cls("corrector%d" % case["corrector"])
+    if q:
+        ctx.cls("massless_testparticles")
+    if N >= 3:
+        ctx.nontrivial()
+    if ex > tolx or ev > tolv:
+        raise Violation("one WHFast step (Jacobi coordinates) with gravity=jacobi differs from the step with gravity=basic: "
+                        "max|dx| %.3g (tol %.3g), max|dv| %.3g (tol %.3g)" % (ex, tolx, ev, tolv),
+                        basic=a.tolist(), jacobi=b.tolist())
+
+
+# ---------------------------------------------------------------------------------------
+# documented active / test-particle semantics in the routines that have no test-particle pass of their own
+# (small enumerated grid: every case currently matches an open finding, see known_findings.json)
+
+def partition_cases(tier):
+    out = []
+    base_pos = [[0.0, 0.0, 0.0], [1.0, 0.1, 0.0], [-0.3, 1.4, 0.2], [0.5, -0.8, 1.1], [-1.2, -0.4, -0.7]]
+    for routine in ("tree", "jacobi"):
+        for n_active in (1, 2, 3):
+            for tp_type in (0, 1):
+                for tm in (0.0, 1e-3):
+                    for ignore in (0, 1, 2):
+                        if routine == "jacobi" and ignore != 1:
+                            continue
+                        out.append({"routine": routine, "pos": base_pos, "m": [1.0, 1e-3, 2e-3][:n_active] + [tm] * (5 - n_active),
+                                    "n_active": n_active, "tp_type": tp_type, "ignore": ignore, "soft": 0.0})
+    for soft in (0.05,):
+        out.append({"routine": "jacobi", "pos": base_pos, "m": [1.0, 1e-3, 2e-3, 1e-4, 0.0], "n_active": -1, "tp_type": 0,
+                    "ignore": 1, "soft": soft})
+    return out
+
+
+def run_partition(case, ctx):
+    import numpy as np
+    import warnings
+    from ..oracles import c02_forces_ref as R
+    warnings.simplefilter("ignore")
+    N = len(case["m"])
+    c = {"N": N, "G": 1.0, "soft": case["soft"], "n_active": case["n_active"], "tp_type": case["tp_type"],
+         "ignore": case["ignore"], "box": {"size": 8.0, "rx": 1, "ry": 1, "rz": 1} if case["routine"] == "tree" else None}
+    pos, m = case["pos"], case["m"]
+    n = N if c["n_active"] < 0 else c["n_active"]
+    massive_tp = any(x != 0 for x in m[n:])
+    if case["routine"] == "tree":
+        # the tree walk has no notion of N_active / testparticle_type / gravity_ignore_terms
+        deviates = (massive_tp or c["ignore"] != 0)
+        key = KEY_TREE_PART
+    else:
+        deviates = massive_tp or c["soft"] > 0
+        key = KEY_JAC_PART
+    if massive_tp and c["tp_type"] == 0:
+        ctx.cls("massive_type0_testparticles(library warns: unexpected behaviour)")
+        ctx.skip("type-0 test particles with mass: the library itself warns about this configuration")
+        return
+    if deviates and ctx.finding_open(key):
+        ctx.excluded(key)
+        return
+    ctx.cls(case["routine"])
+    if deviates:
+        ctx.nontrivial()
+    sim = build_sim(c, case["routine"], pos, m, extra={"opening_angle2": 0.0} if case["routine"] == "tree" else None)
+    if case["routine"] == "jacobi":
+        sim.integrator = "whfast"
+        mask = R.acts_matrix(N, c["n_active"], c["tp_type"], 1)
+        accd, condd, _ = R.direct_ld(pos, m, 1.0, c["soft"], mask)
+        # WHFast builds its Jacobi coordinates from all masses when testparticle_type=1 and from the active ones otherwise
+        mj = list(m) if c["tp_type"] == 1 else [x if i < n else 0.0 for i, x in enumerate(m)]
+        accj, condj, _ = R.jacobi_terms_mp(pos, mj, 1.0, soft=c["soft"])
+        ref = accd + np.array([[float(v) for v in row] for row in accj], dtype=np.longdouble)
+        cond = condd + np.array(condj)
+        what = "gravity=jacobi with N_active=%d testparticle_type=%d softening=%g" % (c["n_active"], c["tp_type"], c["soft"])
+    else:
+        prepare_tree(sim)
+        mask = R.acts_matrix(N, c["n_active"], c["tp_type"], c["ignore"])
+        ref, cond, _ = R.direct_ld(pos, m, 1.0, c["soft"], mask)
+        what = "gravity=tree(theta=0) with N_active=%d testparticle_type=%d gravity_ignore_terms=%d" % (c["n_active"], c["tp_type"], c["ignore"])
+    update_acc(sim)
+    got = read_acc(sim)
+    compare(got, ref, cond + 1e-300, np.full(N, 3 * N), 1e4, 1, what + " vs documented active/test-particle semantics", ctx,
+            "partition_err/tol")
+
+
 def subs(tier):
     return [
-        Sub("direct", run_direct, strategy=direct_case, quick=3000, thorough=120000, shards_quick=8, shards_thorough=16),
-        Sub("tree_theta0", run_tree0, strategy=tree0_case, quick=1200, thorough=40000, shards_quick=8, shards_thorough=16),
-        Sub("tree_bound", run_tree, strategy=tree_case, quick=800, thorough=24000, shards_quick=8, shards_thorough=16),
+        Sub("direct", run_direct, strategy=direct_case, quick=2400, thorough=120000, shards_quick=8, shards_thorough=16),
+        Sub("tree_theta0", run_tree0, strategy=tree0_case, quick=800, thorough=40000, shards_quick=8, shards_thorough=16),
+        Sub("jacobi", run_jacobi, strategy=jacobi_case, quick=800, thorough=40000, shards_quick=8, shards_thorough=16),
+        Sub("jacobi_whfast_step", run_jacobi_step, strategy=jstep_case, quick=800, thorough=20000, shards_quick=4, shards_thorough=8),
+        Sub("documented_partition", run_partition, cases=partition_cases, quick=1, thorough=1, shards_quick=1, shards_thorough=1),
+        Sub("mercurius_split", run_mercurius, strategy=merc_case, quick=1000, thorough=40000, shards_quick=8, shards_thorough=16),
+        Sub("switching_functions", run_switching, strategy=switch_case, quick=2000, thorough=40000, shards_quick=4,
+            shards_thorough=8, journal=False),
+        Sub("trace_split", run_trace, strategy=trace_case, quick=1000, thorough=40000, shards_quick=8, shards_thorough=16),
+        Sub("tree_bound", run_tree, strategy=tree_case, quick=640, thorough=24000, shards_quick=8, shards_thorough=16),
     ]
